@@ -129,16 +129,24 @@ Qed.
 
 (* ------------------------------------------------------------------ the invariant
    I: every cached triple has its row inserted;  J: every acknowledged sample has the row of its day and type;
-   P: every sample of a request in flight has its row inserted already or carries it among its own rows. *)
+   P: for every request in flight: as long as every insert of its chunks succeeded the rows of those chunks are
+      inserted, and every sample of the request (in the chunks sent and in the chunk being filled) has its row
+      inserted already or among the rows the request announced itself (sent or still to be sent). *)
 Definition I (st : state) : Prop := incl (cache st) (ts_rows st).
 Definition J (st : state) : Prop := forall fp d t, In (fp, d, t) (acked st) -> In (d, fp, t) (ts_rows st).
 Definition covered (rows : list row) (f : flight) : Prop :=
-  forall fp d t, In (fp, d, t) (snd f) -> In (d, fp, t) (fst f) \/ In (d, fp, t) rows.
+  (f_ok f = true -> incl (f_ann f) rows) /\
+  (forall fp d t, In (fp, d, t) (f_spl f ++ f_done f) ->
+     In (d, fp, t) (f_rows f) \/ In (d, fp, t) (f_ann f) \/ In (d, fp, t) rows).
 Definition P (st : state) : Prop := forall f, In f (pending st) -> covered (ts_rows st) f.
 Definition inv (st : state) : Prop := I st /\ J st /\ P st.
 
 Lemma covered_mono rows rows' f : incl rows rows' -> covered rows f -> covered rows' f.
-Proof. intros Hi Hc fp d t Hin. destruct (Hc fp d t Hin) as [H|H]; [now left|right; now apply Hi]. Qed.
+Proof.
+  intros Hi [Hc1 Hc2]. split.
+  - intros Hok. eapply incl_tran; [now apply Hc1|assumption].
+  - intros fp d t Hin. destruct (Hc2 fp d t Hin) as [H|[H|H]]; [now left|right; now left|right; right; now apply Hi].
+Qed.
 
 Lemma remove_nth_In {A} (x : A) : forall k l, In x (remove_nth k l) -> In x l.
 Proof.
@@ -147,48 +155,101 @@ Proof.
   - destruct H as [<-|H]; [now left|right; now apply IH].
 Qed.
 
-Lemma begin_covered st ss : I st -> covered (ts_rows st) (begin_req st ss).
+Lemma set_nth_In {A} (x y : A) : forall k l, In y (set_nth k x l) -> y = x \/ In y l.
 Proof.
-  intros HI fp d t Hin. unfold begin_req in *. cbn [fst snd] in *.
-  destruct (parse (cache st) ss) as [c' rows] eqn:Ep. cbn [snd].
-  apply parse_spec in Ep. destruct Ep as [_ [P2 P3]].
-  apply samples_of_In in Hin. destruct Hin as [s [e [Hs [He [-> [-> ->]]]]]].
-  destruct (P3 _ (P2 s e Hs He)) as [H|H]; [right; now apply HI|now left].
+  induction k as [|k IH]; intros [|z l] H; cbn [set_nth] in H; try contradiction.
+  - destruct H as [<-|H]; [now left|right; now right].
+  - destruct H as [<-|H]; [right; now left|]. destruct (IH _ H) as [->|H']; [now left|right; now right].
+Qed.
+
+Lemma store_chunk_mono rows f ts_ok : incl rows (store_chunk rows f ts_ok).
+Proof. unfold store_chunk. destruct ts_ok; [apply incl_appr|]; apply incl_refl. Qed.
+
+Lemma covered_empty rows : covered rows empty_flight.
+Proof. split; [intros _ x []|intros ? ? ? []]. Qed.
+
+(* parsing further streams keeps a request covered *)
+Lemma more_covered st f ss : I st -> covered (ts_rows st) f -> covered (ts_rows st) (more_req st f ss).
+Proof.
+  intros HI [Hc1 Hc2]. unfold more_req. split; cbn [f_ok f_ann f_rows f_spl f_done].
+  - exact Hc1.
+  - destruct (parse_fold ss (f_rows f ++ f_ann f ++ cache st, f_rows f)) as [[G1 [G2 G3]] M].
+    cbn [fst snd] in *. intros fp d t Hin.
+    rewrite <- app_assoc in Hin. apply in_app_or in Hin. destruct Hin as [Hin|Hin].
+    + (* a sample parsed earlier: its row is where it was, and the rows of the chunk only grow *)
+      destruct (Hc2 fp d t (proj2 (in_app_iff _ _ _) (or_introl Hin))) as [H|H]; [left; now apply G2|now right].
+    + apply in_app_or in Hin. destruct Hin as [Hin|Hin].
+      * apply samples_of_In in Hin. destruct Hin as [s [e [Hs [He [-> [-> ->]]]]]].
+        pose proof (M s e (e_type e) Hs He (types_of_complete e _ He)) as Hc.
+        destruct (G3 _ Hc) as [H|H]; [|now left].
+        apply in_app_or in H. destruct H as [H|H]; [left; now apply G2|].
+        apply in_app_or in H. destruct H as [H|H]; [right; now left|right; right; now apply HI].
+      * destruct (Hc2 fp d t (proj2 (in_app_iff _ _ _) (or_intror Hin))) as [H|H]; [left; now apply G2|now right].
+Qed.
+
+Lemma begin_covered st ss : I st -> covered (ts_rows st) (begin_req st ss).
+Proof. intros HI. apply more_covered; [assumption|apply covered_empty]. Qed.
+
+(* sending the chunk keeps a request covered by the table as it is after the chunk's series insert *)
+Lemma send_covered rows f ts_ok spl_ok :
+  covered rows f -> covered (store_chunk rows f ts_ok) (send_chunk f ts_ok spl_ok).
+Proof.
+  intros [Hc1 Hc2]. pose proof (store_chunk_mono rows f ts_ok) as Hmono.
+  unfold send_chunk. split; cbn [f_ok f_ann f_rows f_spl f_done].
+  - intros Hok. apply andb_true_iff in Hok. destruct Hok as [Hok _]. apply andb_true_iff in Hok. destruct Hok as [Hok Hts].
+    apply incl_app; [|eapply incl_tran; [now apply Hc1|assumption]].
+    unfold store_chunk. destruct ts_ok; [apply incl_appl, incl_refl|].
+    rewrite orb_false_r in Hts. destruct (f_rows f); [intros ? []|discriminate Hts].
+  - cbn [app]. intros fp d t Hin. right.
+    destruct (Hc2 fp d t Hin) as [H|[H|H]].
+    + left. apply in_or_app. now left.
+    + left. apply in_or_app. now right.
+    + right. now apply Hmono.
 Qed.
 
 Lemma finish_inv st f ts_ok spl_ok pend :
   inv st -> covered (ts_rows st) f -> incl pend (pending st) ->
   inv (fst (finish st f ts_ok spl_ok pend)).
 Proof.
-  intros [HI [HJ HP]] Hc Hpend. destruct f as [rows spl]. unfold finish. cbn [fst].
-  set (rows' := if ts_ok then rows ++ ts_rows st else ts_rows st).
-  assert (Hmono : incl (ts_rows st) rows').
-  { subst rows'. destruct ts_ok; [apply incl_appr|]; apply incl_refl. }
-  (* when the request is acknowledged all of its own rows are stored *)
-  assert (Hrows : (is_nil rows || ts_ok) && spl_ok = true -> incl rows rows').
-  { intros Ha. apply andb_true_iff in Ha. destruct Ha as [Ha _]. subst rows'.
-    destruct ts_ok; [apply incl_appl, incl_refl|].
-    rewrite orb_false_r in Ha. destruct rows; [intros ? []|discriminate Ha]. }
+  intros [HI [HJ HP]] Hc Hpend. unfold finish. cbn [fst].
+  pose proof (store_chunk_mono (ts_rows st) f ts_ok) as Hmono.
+  destruct (send_covered _ f ts_ok spl_ok Hc) as [Hs1 Hs2].
+  set (g := send_chunk f ts_ok spl_ok) in *. set (rows' := store_chunk (ts_rows st) f ts_ok) in *.
   split; [|split].
-  - unfold I. cbn [cache ts_rows]. destruct ((is_nil rows || ts_ok) && spl_ok) eqn:Ea.
-    + apply incl_app; [now apply Hrows|]. eapply incl_tran; eassumption.
+  - unfold I. cbn [cache ts_rows]. destruct (f_ok g) eqn:Ea.
+    + apply incl_app; [now apply Hs1|]. eapply incl_tran; eassumption.
     + eapply incl_tran; eassumption.
-  - intros fp d t Hin. cbn [acked ts_rows] in *. destruct ((is_nil rows || ts_ok) && spl_ok) eqn:Ea.
+  - intros fp d t Hin. cbn [acked ts_rows] in *. destruct (f_ok g) eqn:Ea.
     + apply in_app_or in Hin. destruct Hin as [Hin|Hin]; [|apply Hmono; now apply HJ].
-      destruct (Hc fp d t Hin) as [H|H]; [now apply (Hrows eq_refl)|now apply Hmono].
+      assert (Hin' : In (fp, d, t) (f_spl g ++ f_done g)) by (subst g; cbn [send_chunk f_spl f_done app]; exact Hin).
+      destruct (Hs2 fp d t Hin') as [H|[H|H]]; [subst g; cbn [send_chunk f_rows] in H; contradiction|now apply (Hs1 eq_refl)|assumption].
     + apply Hmono. now apply HJ.
-  - intros g Hg. cbn [pending ts_rows] in *. apply (covered_mono (ts_rows st)); [assumption|]. apply HP. now apply Hpend.
+  - intros h Hh. cbn [pending ts_rows] in *. apply (covered_mono (ts_rows st)); [assumption|]. apply HP. now apply Hpend.
 Qed.
 
 Lemma step_inv st a : inv st -> inv (fst (step st a)).
 Proof.
-  intros Hinv. pose proof Hinv as [HI [HJ HP]]. destruct a as [ss ts_ok spl_ok|ss|ss|k ts_ok spl_ok|k|]; cbn [step].
+  intros Hinv. pose proof Hinv as [HI [HJ HP]].
+  destruct a as [ss ts_ok spl_ok|ss|ss|k ss|k ts_ok spl_ok|k ts_ok spl_ok|k|]; cbn [step].
   - pose proof (finish_inv st (begin_req st ss) ts_ok spl_ok (pending st) Hinv (begin_covered st ss HI) (incl_refl _)) as H.
     destruct (finish st (begin_req st ss) ts_ok spl_ok (pending st)) as [st' ack]. exact H.
   - exact Hinv.
   - cbn [fst]. split; [exact HI|]. split; [exact HJ|].
     intros f Hf. cbn [pending ts_rows] in *. apply in_app_or in Hf. destruct Hf as [Hf|[<-|[]]]; [now apply HP|].
     now apply begin_covered.
+  - destruct (nth_error (pending st) k) as [f|] eqn:En; [|exact Hinv].
+    assert (Hf : covered (ts_rows st) f) by (apply HP; eapply nth_error_In; eassumption).
+    cbn [fst]. split; [exact HI|]. split; [exact HJ|].
+    intros g Hg. cbn [pending ts_rows] in *. destruct (set_nth_In _ _ _ _ Hg) as [->|Hg']; [now apply more_covered|now apply HP].
+  - destruct (nth_error (pending st) k) as [f|] eqn:En; [|exact Hinv].
+    assert (Hf : covered (ts_rows st) f) by (apply HP; eapply nth_error_In; eassumption).
+    pose proof (store_chunk_mono (ts_rows st) f ts_ok) as Hmono.
+    cbn [fst]. split; [|split].
+    + unfold I. cbn [cache ts_rows]. eapply incl_tran; eassumption.
+    + intros fp d t Hin. cbn [acked ts_rows] in *. apply Hmono. now apply HJ.
+    + intros g Hg. cbn [pending ts_rows] in *. destruct (set_nth_In _ _ _ _ Hg) as [->|Hg'].
+      * now apply send_covered.
+      * apply (covered_mono (ts_rows st)); [assumption|now apply HP].
   - destruct (nth_error (pending st) k) as [f|] eqn:En; [|exact Hinv].
     assert (Hf : covered (ts_rows st) f) by (apply HP; eapply nth_error_In; eassumption).
     pose proof (finish_inv st f ts_ok spl_ok (remove_nth k (pending st)) Hinv Hf
@@ -292,12 +353,51 @@ Example w_types_indexed :
   all_indexed_typed (run init w_types) = true /\ ts_rows (run init w_types) = [(19732, 7, 2); (19732, 7, 1)].
 Proof. vm_compute. split; reflexivity. Qed.
 
-(* a history with faults, resets, overlapping requests, a malformed body and varying types that acknowledges samples *)
+(* a history with faults, resets, overlapping requests, a mid-request flush, a malformed body and varying types that
+   acknowledges samples *)
 Definition w_mixed : list action :=
   [Push [w_stream] true true; Push [w_stream; w_stream_metric] false true; Begin [w_other]; CacheReset;
-   PushBad [w_other]; Push [w_stream_metric] true false; End 0 true true; Push [w_stream; w_other] true true].
-Example w_mixed_ok : List.length (acked (run init w_mixed)) = 4%nat /\ all_indexed_typed (run init w_mixed) = true.
+   PushBad [w_other]; Push [w_stream_metric] true false; Flush 0 true true; More 0 [w_stream];
+   End 0 true true; Push [w_stream; w_other] true true].
+Example w_mixed_ok : List.length (acked (run init w_mixed)) = 5%nat /\ all_indexed_typed (run init w_mixed) = true.
 Proof. vm_compute. split; reflexivity. Qed.
+
+(* the mid-request flush: a long request announces its series in chunk 1, whose series insert FAILS; the samples of
+   the same series in its last chunk (which carries no row: the request remembers what it announced) are inserted
+   successfully. The request is not acknowledged and nothing is cached; the client's retry announces the series
+   again, all its inserts succeed, it is acknowledged and its samples are indexed. *)
+Definition w_stream_later : stream := {| s_fp := 7; s_entries := [{| e_ts := 1704888120000000000; e_type := TLog |}] |}.
+Definition w_flush_try (ts1 : bool) : list action :=
+  [Begin [w_stream]; Flush 0 ts1 true; More 0 [w_stream_later]; End 0 true true].
+Definition w_flush : list action := w_flush_try false ++ w_flush_try true.
+Example w_flush_indexed :
+  run_obs init w_flush = [OBegin; OFlush [(19732, 7, 1)] 1; OBegin; OPush false [] 1;
+                          OBegin; OFlush [(19732, 7, 1)] 1; OBegin; OPush true [] 1] /\
+  cache (run init (w_flush_try false)) = [] /\ acked (run init (w_flush_try false)) = [] /\
+  ts_rows (run init (w_flush_try false)) = [] /\
+  all_indexed_typed (run init w_flush) = true /\ List.length (acked (run init w_flush)) = 2%nat /\
+  cache (run init w_flush) = [(19732, 7, 1)].
+Proof. vm_compute. repeat (split; [reflexivity|]). reflexivity. Qed.
+
+(* every chunk succeeds: the samples of the last chunk of series 7 (no row of their own) and of series 9 (announced in
+   the last chunk) are acknowledged together with those of chunk 1, all indexed; both rows are cached only now *)
+Definition w_flush_ok : list action :=
+  [Begin [w_stream]; Flush 0 true true; More 0 [w_stream_later; w_other]; End 0 true true].
+Example w_flush_ok_indexed :
+  run_obs init w_flush_ok = [OBegin; OFlush [(19732, 7, 1)] 1; OBegin; OPush true [(19732, 9, 1)] 2] /\
+  cache (run init (firstn 3 w_flush_ok)) = [] /\
+  cache (run init w_flush_ok) = [(19732, 9, 1); (19732, 7, 1)] /\
+  List.length (acked (run init w_flush_ok)) = 3%nat /\ all_indexed_typed (run init w_flush_ok) = true.
+Proof. vm_compute. repeat (split; [reflexivity|]). reflexivity. Qed.
+
+(* a chunk that was sent is not confirmed before the request ends: a push handled in between announces the series
+   itself, and when the long request turns out malformed (400) its stored row stays, uncached and unacknowledged *)
+Definition w_flush_abort : list action := [Begin [w_stream]; Flush 0 true true; Push [w_stream] true true; Abort 0].
+Example w_flush_abort_obs :
+  run_obs init w_flush_abort = [OBegin; OFlush [(19732, 7, 1)] 1; OPush true [(19732, 7, 1)] 1; OBad] /\
+  ts_rows (run init w_flush_abort) = [(19732, 7, 1); (19732, 7, 1)] /\
+  List.length (acked (run init w_flush_abort)) = 1%nat /\ pending (run init w_flush_abort) = [].
+Proof. vm_compute. repeat (split; [reflexivity|]). reflexivity. Qed.
 
 (* ------------------------------------------------------------------ where an inserted row comes from
    Every series row ever inserted was announced by a stream of the history that has the row's fingerprint, an
@@ -309,7 +409,7 @@ Definition from_stream (s : stream) (x : row) : Prop :=
   exists d t, In d (days_of (s_entries s)) /\ In t (types_of (s_entries s)) /\ x = (d, s_fp s, tcode t).
 
 Definition streams_of_action (a : action) : list stream :=
-  match a with Push ss _ _ | PushBad ss | Begin ss => ss | _ => [] end.
+  match a with Push ss _ _ | PushBad ss | Begin ss | More _ ss => ss | _ => [] end.
 Definition all_streams (h : list action) : list stream := flat_map streams_of_action h.
 
 Lemma announce_type_rows d fp acc t x :
@@ -343,61 +443,83 @@ Proof.
   right. exists d, t. split; [assumption|]. split; [assumption|reflexivity].
 Qed.
 
-Lemma parse_rows_origin c ss x : In x (snd (parse c ss)) -> exists s, In s ss /\ from_stream s x.
+Lemma fold_rows_origin x : forall ss acc, In x (snd (fold_left on_entries ss acc)) ->
+  In x (snd acc) \/ exists s, In s ss /\ from_stream s x.
 Proof.
-  unfold parse.
-  assert (G : forall ss acc, In x (snd (fold_left on_entries ss acc)) ->
-              In x (snd acc) \/ exists s, In s ss /\ from_stream s x).
-  { induction ss0 as [|s ss0 IH]; intros acc H; cbn [fold_left] in H; [now left|].
-    destruct (IH _ H) as [H1|[s' [Hs' Hf]]].
-    - destruct (on_entries_rows _ _ _ H1) as [H2|H2]; [now left|right; exists s; split; [now left|assumption]].
-    - right. exists s'. split; [now right|assumption]. }
-  intros H. destruct (G _ _ H) as [[]|H']. exact H'.
+  induction ss as [|s ss IH]; intros acc H; cbn [fold_left] in H; [now left|].
+  destruct (IH _ H) as [H1|[s' [Hs' Hf]]].
+  - destruct (on_entries_rows _ _ _ H1) as [H2|H2]; [now left|right; exists s; split; [now left|assumption]].
+  - right. exists s'. split; [now right|assumption].
 Qed.
 
-(* rows inserted and rows carried by requests in flight all stem from the streams seen so far *)
+Lemma parse_rows_origin c ss x : In x (snd (parse c ss)) -> exists s, In s ss /\ from_stream s x.
+Proof. unfold parse. intros H. destruct (fold_rows_origin _ _ _ H) as [[]|H']. exact H'. Qed.
+
+(* rows inserted and rows waiting in the chunk of a request in flight all stem from the streams seen so far *)
+Definition rows_from (S : list stream) (rows : list row) : Prop :=
+  forall x, In x rows -> exists s, In s S /\ from_stream s x.
 Definition origin_inv (S : list stream) (st : state) : Prop :=
-  (forall x, In x (ts_rows st) -> exists s, In s S /\ from_stream s x) /\
-  (forall f x, In f (pending st) -> In x (fst f) -> exists s, In s S /\ from_stream s x).
+  rows_from S (ts_rows st) /\ (forall f, In f (pending st) -> rows_from S (f_rows f)).
+
+Lemma rows_from_mono S S' rows : incl S S' -> rows_from S rows -> rows_from S' rows.
+Proof. intros Hi H x Hx. destruct (H x Hx) as [s [Hs Hf]]. exists s. split; [now apply Hi|assumption]. Qed.
 
 Lemma origin_mono S S' st : incl S S' -> origin_inv S st -> origin_inv S' st.
 Proof.
-  intros Hi [H1 H2]. split.
-  - intros x Hx. destruct (H1 x Hx) as [s [Hs Hf]]. exists s. split; [now apply Hi|assumption].
-  - intros f x Hf Hx. destruct (H2 f x Hf Hx) as [s [Hs Hfs]]. exists s. split; [now apply Hi|assumption].
+  intros Hi [H1 H2]. split; [now apply (rows_from_mono S)|]. intros f Hf. apply (rows_from_mono S); [assumption|now apply H2].
+Qed.
+
+Lemma more_origin S st f ss : rows_from S (f_rows f) -> rows_from (S ++ ss) (f_rows (more_req st f ss)).
+Proof.
+  intros Hf x Hx. unfold more_req in Hx. cbn [f_rows] in Hx.
+  destruct (fold_rows_origin _ _ _ Hx) as [H|[s [Hs Hfs]]]; cbn [snd] in *.
+  - destruct (Hf x H) as [s [Hs Hfs]]. exists s. split; [apply in_or_app; now left|assumption].
+  - exists s. split; [apply in_or_app; now right|assumption].
+Qed.
+
+Lemma begin_origin S st ss : rows_from (S ++ ss) (f_rows (begin_req st ss)).
+Proof. apply more_origin. intros ? []. Qed.
+
+Lemma store_origin S rows f ts_ok : rows_from S rows -> rows_from S (f_rows f) -> rows_from S (store_chunk rows f ts_ok).
+Proof.
+  intros H1 Hf x Hx. unfold store_chunk in Hx. destruct ts_ok; [|now apply H1].
+  apply in_app_or in Hx. destruct Hx as [Hx|Hx]; [now apply Hf|now apply H1].
 Qed.
 
 Lemma finish_origin S st f ts_ok spl_ok pend :
-  origin_inv S st -> (forall x, In x (fst f) -> exists s, In s S /\ from_stream s x) -> incl pend (pending st) ->
+  origin_inv S st -> rows_from S (f_rows f) -> incl pend (pending st) ->
   origin_inv S (fst (finish st f ts_ok spl_ok pend)).
 Proof.
-  intros [H1 H2] Hf Hp. destruct f as [rows spl]. unfold finish. cbn [fst]. split; cbn [ts_rows pending].
-  - intros x Hx. destruct ts_ok; [|now apply H1]. apply in_app_or in Hx. destruct Hx as [Hx|Hx]; [now apply Hf|now apply H1].
-  - intros g x Hg Hx. apply (H2 g x); [now apply Hp|assumption].
+  intros [H1 H2] Hf Hp. unfold finish. cbn [fst]. split; cbn [ts_rows pending].
+  - now apply store_origin.
+  - intros g Hg. apply H2. now apply Hp.
 Qed.
 
 Lemma step_origin S st a : origin_inv S st -> origin_inv (S ++ streams_of_action a) (fst (step st a)).
 Proof.
   intros Hinv. assert (Hinv' : origin_inv (S ++ streams_of_action a) st) by (apply (origin_mono S); [apply incl_appl, incl_refl|assumption]).
-  destruct a as [ss ts_ok spl_ok|ss|ss|k ts_ok spl_ok|k|]; cbn [step streams_of_action] in *.
-  - assert (Hf : forall x, In x (fst (begin_req st ss)) -> exists s, In s (S ++ ss) /\ from_stream s x).
-    { intros x Hx. unfold begin_req in Hx. cbn [fst] in Hx. destruct (parse_rows_origin _ _ _ Hx) as [s [Hs Hfs]].
-      exists s. split; [apply in_or_app; now right|assumption]. }
-    pose proof (finish_origin _ st (begin_req st ss) ts_ok spl_ok (pending st) Hinv' Hf (incl_refl _)) as H.
+  destruct a as [ss ts_ok spl_ok|ss|ss|k ss|k ts_ok spl_ok|k ts_ok spl_ok|k|]; cbn [step streams_of_action] in *.
+  - pose proof (finish_origin _ st (begin_req st ss) ts_ok spl_ok (pending st) Hinv' (begin_origin S st ss) (incl_refl _)) as H.
     destruct (finish st (begin_req st ss) ts_ok spl_ok (pending st)) as [st' ack]. exact H.
   - exact Hinv'.
   - destruct Hinv' as [H1 H2]. cbn [fst]. split; cbn [ts_rows pending]; [exact H1|].
-    intros f x Hf Hx. apply in_app_or in Hf. destruct Hf as [Hf|[<-|[]]]; [now apply (H2 f x)|].
-    unfold begin_req in Hx. cbn [fst] in Hx. destruct (parse_rows_origin _ _ _ Hx) as [s [Hs Hfs]].
-    exists s. split; [apply in_or_app; now right|assumption].
+    intros f Hf. apply in_app_or in Hf. destruct Hf as [Hf|[<-|[]]]; [now apply H2|apply begin_origin].
   - destruct (nth_error (pending st) k) as [f|] eqn:En; [|exact Hinv'].
-    assert (Hf : forall x, In x (fst f) -> exists s, In s (S ++ []) /\ from_stream s x).
-    { intros x Hx. destruct Hinv' as [_ H2]. apply (H2 f x); [eapply nth_error_In; eassumption|assumption]. }
+    destruct Hinv as [_ H2o]. destruct Hinv' as [H1 H2]. cbn [fst]. split; cbn [ts_rows pending]; [exact H1|].
+    intros g Hg. destruct (set_nth_In _ _ _ _ Hg) as [->|Hg']; [|now apply H2].
+    apply more_origin. apply H2o. eapply nth_error_In; eassumption.
+  - destruct (nth_error (pending st) k) as [f|] eqn:En; [|exact Hinv'].
+    destruct Hinv' as [H1 H2]. cbn [fst]. split; cbn [ts_rows pending].
+    + apply store_origin; [exact H1|]. apply H2. eapply nth_error_In; eassumption.
+    + intros g Hg. destruct (set_nth_In _ _ _ _ Hg) as [->|Hg']; [|now apply H2]. intros ? [].
+  - destruct (nth_error (pending st) k) as [f|] eqn:En; [|exact Hinv'].
+    assert (Hf : rows_from (S ++ []) (f_rows f)).
+    { destruct Hinv' as [_ H2]. apply H2. eapply nth_error_In; eassumption. }
     pose proof (finish_origin _ st f ts_ok spl_ok (remove_nth k (pending st)) Hinv' Hf (fun x Hx => remove_nth_In x k _ Hx)) as H.
     destruct (finish st f ts_ok spl_ok (remove_nth k (pending st))) as [st' ack]. exact H.
   - destruct (nth_error (pending st) k) as [f|] eqn:En; [|exact Hinv'].
     destruct Hinv' as [H1 H2]. cbn [fst]. split; cbn [ts_rows pending]; [exact H1|].
-    intros g x Hg Hx. apply (H2 g x); [eapply remove_nth_In; eassumption|assumption].
+    intros g Hg. apply H2. eapply remove_nth_In; eassumption.
   - destruct Hinv' as [H1 H2]. cbn [fst]. split; cbn [ts_rows pending]; assumption.
 Qed.
 
@@ -411,7 +533,7 @@ Qed.
 Lemma inserted_rows_have_origin h x :
   In x (ts_rows (run init h)) -> exists s, In s (all_streams h) /\ from_stream s x.
 Proof.
-  intros Hx. assert (H0 : origin_inv [] init) by (split; [intros ? []|intros ? ? []]).
+  intros Hx. assert (H0 : origin_inv [] init) by (split; [intros ? []|intros ? []]).
   destruct (run_origin h [] init H0) as [H1 _]. cbn [app] in H1. now apply H1.
 Qed.
 
